@@ -184,6 +184,41 @@ func init() {
 				}
 			}
 		}
+		// unknown words of EVERY length from 1 to 140 bytes, bare and with each suffix / '+' (fixed-size buffers that hold the
+		// word plus a suffix)
+		for n := 1; n <= 140; n++ {
+			wd := strings.Repeat("q", n)
+			if n%3 == 0 {
+				wd = strings.Repeat("Ab-9.", n)[:n]
+			}
+			for _, text := range []string{wd + "+", wd + "-or-later", wd + "-only+", "MIT WITH " + wd + "+", "LicenseRef-" + wd + "+"} {
+				count("every_length_words")
+				if f := c03Probe(text, false); f != nil {
+					fail(*f)
+				}
+			}
+		}
+		// every DEPRECATED id against every active id, one side carrying a WITH exception (tables of "replaced by" pairs are
+		// indexed with what the split of a replacement yields)
+		{
+			e := genException()
+			for _, d := range tblDeprecated {
+				d = strings.TrimSuffix(d, "+")
+				for i, a := range tblActive {
+					if !thorough() && (i+len(d))%4 != 0 {
+						continue
+					}
+					res.Evaluations += 2
+					count("deprecated_x_active_with")
+					if r := implSat(d, []string{a + " WITH " + e}); r.panicv != nil {
+						fail(failure{Stream: "oracle", What: fmt.Sprintf("Satisfies panicked: %v", r.panicv), Case: &kase{Expr: d, ExprHex: hx(d), Allowed: []string{a + " WITH " + e}}, Impl: "PANIC"})
+					}
+					if r := implSat(a+" WITH "+e, []string{d, d + " WITH " + e}); r.panicv != nil {
+						fail(failure{Stream: "oracle", What: fmt.Sprintf("Satisfies panicked: %v", r.panicv), Case: &kase{Expr: a + " WITH " + e, ExprHex: hx(a + " WITH " + e), Allowed: []string{d, d + " WITH " + e}}, Impl: "PANIC"})
+					}
+				}
+			}
+		}
 		// words that mean something in SPDX documents or package metadata but are no license ids, in every argument position
 		for _, wd := range specialWords {
 			for _, text := range []string{wd, "MIT OR " + wd, "(" + wd + ")", wd + "+", "MIT WITH " + wd, wd + " WITH " + wd} {
@@ -990,6 +1025,18 @@ func init() {
 			rec(nil)
 			flushCorr()
 		}
+		// every listed id EXTENDED by id characters (fixed-width keys truncate; the longest ids are where it shows): no such
+		// word is a listed id unless it happens to be one
+		for _, id := range append(append(append([]string{}, tblActive...), tblDeprecated...), tblExceptions...) {
+			id = strings.TrimSuffix(id, "+")
+			for _, ext := range []string{"x", ".1", "-", "s", "0"} {
+				w := id + ext
+				if f := c05Word(w); f != nil {
+					fail(*f)
+				}
+				count("extended_listed_ids")
+			}
+		}
 		// texts with bytes outside the lexical alphabet (non-ASCII letters that case-fold to ASCII, other scripts, odd white
 		// space): none of them is in the language, wherever the byte stands
 		for _, text := range unicodeStream(scale(60, 400)) {
@@ -1269,7 +1316,8 @@ func c15Check(s string, kind string, via int) *failure {
 func init() {
 	props["C15"] = func() {
 		res.Rule = "invalid texts = a valid prefix from the tree generator (rich in -or-later forms, '+', spaces, parentheses) cut after a token, followed by an operator and an unknown id / a bare LicenseRef- or DocumentRef- prefix / a stray byte, optionally followed by more text; the error of ExtractLicenses / Satisfies (expression and allowed-entry position) is read leniently (quoted substring = lexeme, last number = offset) and checked against the caller's string. Non-trivial & distinct = distinct texts that produced an offset-bearing error"
-		unknowns := []string{"FOO", "foo-1.0", "X", "GPL-9.9", "MIT-or-later-x", "Apache-2.0-only-only", "NOT.A.LICENSE", "and", "with", "GPL-2.0-or-later-or-later", "-", "."}
+		unknowns := []string{"FOO", "foo-1.0", "X", "GPL-9.9", "MIT-or-later-x", "Apache-2.0-only-only", "NOT.A.LICENSE", "and", "with", "GPL-2.0-or-later-or-later", "-", ".",
+			"FOO-OR-LATER", "Foo-Only", "x-Or-Later", "FOO-or-later", "foo-only", "BAR-OR-later"}
 		strays := []string{"!", "_", "\xff", "\xc3\xa9", "\t", "/", "*", "\x00", "~", "é"}
 		n := scale(12000, 200000)
 		for i := 0; i < n && !timeUp("props_text.go:941"); i++ {
@@ -1330,6 +1378,23 @@ func init() {
 						fail(*f)
 					}
 					count("exception_suffix_contexts")
+				}
+			}
+		}
+		// listed ids that a suffix turns into UNKNOWN lexemes (deprecated-only ids with -or-later, exceptions with a suffix as
+		// a licence): the scanner may have started rewriting before it found out
+		for _, d := range append(append([]string{}, tblDeprecated...), tblExceptions[:scale(10, len(tblExceptions))]...) {
+			d = strings.TrimSuffix(d, "+")
+			for _, suf := range []string{"-or-later", "-or-later+", "-only", "-or-later-or-later"} {
+				w := d + suf
+				if implValid(w) {
+					continue
+				}
+				for _, text := range []string{w, "MIT AND " + w, "(" + w + ")", "Apache-2.0-or-later OR " + w + " OR ISC", strings.ToLower(d) + suf} {
+					if f := c15Check(text, "unknown", len(text)%3); f != nil {
+						fail(*f)
+					}
+					count("listed_id_made_unknown_by_suffix")
 				}
 			}
 		}
